@@ -474,3 +474,33 @@ def alpha(node_or_text):
         if n.id in names:
             n.id = names[n.id]
     return norm(node)
+
+
+def rename_locals(fnode, mapping):
+    """A copy of the function with local names renamed (``mapping``: actual name -> canonical name).  Rules written against the
+    names the reference tree uses find their variables by ROLE (see the callers) and read the function through this copy, so a
+    renamed local is the same variable to them.  A canonical name that is already taken by another local is left alone."""
+    import copy
+    mapping = {a: c for a, c in mapping.items() if a != c}
+    if not mapping:
+        return fnode
+    taken = {n.id for n in ast.walk(fnode) if isinstance(n, ast.Name)} | {a.arg for a in ast.walk(fnode) if isinstance(a, ast.arg)}
+    mapping = {a: c for a, c in mapping.items() if c not in taken or c in mapping}
+    if not mapping:
+        return fnode
+    new = copy.deepcopy(fnode)
+    for n in ast.walk(new):
+        if isinstance(n, ast.Name) and n.id in mapping:
+            n.id = mapping[n.id]
+    return new
+
+
+class FuncView(object):
+    """A Func seen through another syntax tree (see rename_locals)."""
+
+    def __init__(self, func, node):
+        self._func = func
+        self.node = node
+
+    def __getattr__(self, k):
+        return getattr(self._func, k)
